@@ -109,11 +109,14 @@ def time_guard_code(tid, pred, d):
             % (tid, pred, d, d, d, pred, d))
 
 
-def cond_code(cid, with_old, counter='v', active_name=None):
+def cond_code(cid, with_old, counter='v', active_name=None, time_probe=False):
     """contract condition: logs its evaluation, value taken from cv (data only)"""
     tail = 'cv[%d]' % cid
     if active_name is not None:
         tail = '((active(%r) or True) and cv[%d])' % (active_name, cid)
+    if time_probe and with_old:       # (preconditions do not expose after / idle)
+        # the condition also looks at the time predicates (its value does not depend on them)
+        tail = '((after(100000) or idle(100000) or True) and %s)' % tail
     if with_old:
         return ("(log.append(('c', %d, %s if __old__ is not None else None)) or %s)"
                 % (cid, OLD_EXPR[counter], tail))
@@ -153,7 +156,8 @@ def instrument(spec, guards='gv', contracts=None, cond_fn=False, counter='v'):
             return cond_code_fn(c, with_old, counter)
     else:
         def mk(c, with_old, o=None):
-            return cond_code(c, with_old, counter, (o or {}).get('c_active'))
+            return cond_code(c, with_old, counter, (o or {}).get('c_active'),
+                             bool((o or {}).get('c_time')))
     for s in spec['states']:
         s['on_entry'] = entry_code(s['sid'], s.get('sends_entry'), s.get('extra_entry'), counter)
         s['on_exit'] = exit_code(s['sid'], s.get('sends_exit'), s.get('extra_exit'), counter)
